@@ -78,7 +78,9 @@ def _loc(new: ast.AST, old: ast.AST) -> ast.AST:
     return new
 
 
-_NEG = {ast.Is: ast.IsNot, ast.IsNot: ast.Is, ast.In: ast.NotIn, ast.NotIn: ast.In, ast.Eq: ast.NotEq, ast.NotEq: ast.Eq}
+# order comparisons are negated as for totally ordered values (the package compares ints / indices / lengths only)
+_NEG = {ast.Is: ast.IsNot, ast.IsNot: ast.Is, ast.In: ast.NotIn, ast.NotIn: ast.In, ast.Eq: ast.NotEq, ast.NotEq: ast.Eq,
+        ast.Lt: ast.GtE, ast.GtE: ast.Lt, ast.Gt: ast.LtE, ast.LtE: ast.Gt}
 
 
 def negate(e: ast.expr) -> ast.expr:
@@ -306,7 +308,7 @@ class BlockCanon:
                     continue
             # ---- C7 scan idioms
             if enabled("C7"):
-                r = self._scan_any(st) or self._scan_next(st, stmts[i + 1] if not last else None) or self._scan_next_return(st)
+                r = self._scan_any(st) or self._scan_next(st, stmts[i + 1] if not last else None, stmts[i + 2 :]) or self._scan_next_return(st)
                 if r is not None:
                     self.changed = True
                     new_stmts, consumed = r
@@ -429,7 +431,7 @@ class BlockCanon:
         return [loop], 1
 
     # -- C7: v = next((e for x in it if c), None); if v is not None: <terminating>
-    def _scan_next(self, st: ast.stmt, nxt: Optional[ast.stmt]):
+    def _scan_next(self, st: ast.stmt, nxt: Optional[ast.stmt], rest: Sequence[ast.stmt] = ()):
         if nxt is None or not (isinstance(st, ast.Assign) and len(st.targets) == 1 and isinstance(st.targets[0], ast.Name)):
             return None
         v = st.targets[0].id
@@ -439,8 +441,15 @@ class BlockCanon:
         g = c.args[0]
         if len(g.generators) != 1 or not g.generators[0].ifs:
             return None
-        if not (isinstance(nxt, ast.If) and not nxt.orelse and terminates(nxt.body) and not isinstance(nxt.body[-1], (ast.Continue, ast.Break))):
+        if not (isinstance(nxt, ast.If) and not nxt.orelse):
             return None
+        term = terminates(nxt.body) and not isinstance(nxt.body[-1], (ast.Continue, ast.Break))
+        if not term:
+            # the found element is only used inside the `if`: first match, then stop scanning
+            if any(isinstance(x, (ast.Continue, ast.Break, ast.Return)) for b_ in nxt.body for x in ast.walk(b_)):
+                return None
+            if any(isinstance(x, ast.Name) and x.id == v for r_ in rest for x in ast.walk(r_)):
+                return None
         t = nxt.test
         ok = (isinstance(t, ast.Compare) and len(t.ops) == 1 and isinstance(t.ops[0], ast.IsNot) and isinstance(t.left, ast.Name) and t.left.id == v and _const(t.comparators[0], None)) or (
             isinstance(t, ast.Name) and t.id == v
@@ -452,7 +461,8 @@ class BlockCanon:
         for cc in reversed(gen.ifs[:-1]):
             cond = _and(cc, cond)
         bind = _loc(ast.Assign(targets=[ast.Name(id=v, ctx=ast.Store())], value=g.elt), st)
-        inner = _loc(ast.If(test=simplify_test(cond), body=[bind] + nxt.body, orelse=[]), nxt)
+        tailb = [] if term else [_loc(ast.Break(), nxt)]
+        inner = _loc(ast.If(test=simplify_test(cond), body=[bind] + nxt.body + tailb, orelse=[]), nxt)
         loop = _loc(ast.For(target=gen.target, iter=gen.iter, body=[inner], orelse=[]), st)
         return [loop], 2
 
